@@ -174,3 +174,9 @@ package types
 //@   pure
 //@   trusted
 //@   results a, err
+
+// ------------------------------------------------------------- entity store
+// A store lookup is a deterministic function of the store and the UID
+// (assumption for user-supplied EntityGetters).
+//@ func (EntityGetter) Get
+//@   pure
